@@ -192,6 +192,20 @@ def _real_pair(mk_a, mk_b, compatible, fill):
         last = (ok, det)
         if not ok:
             return last
+    if compatible:
+        # an argument that holds records but no keys (what a parallel_add worker ends up with when its records were empty):
+        # the merged bookkeeping must still be the sum
+        try:
+            a, b = mk_a(), mk_b()
+            if hasattr(a, "n_added_records"):
+                fill(a)
+                b.n_added_records[1] = 5
+                before = int(a.n_records())
+                a.merge(b)
+                if int(a.n_records()) != before + 5:
+                    return False, f"argument with n_added()==0 but n_records()==5: merged n_records()={int(a.n_records())}, expected {before + 5}"
+        except (ValueError, OverflowError, MemoryError):
+            pass
     return last
 
 
